@@ -28,6 +28,21 @@ def gdiff(a, b, path=""):
     return None
 
 
+def gnorm(g):
+    """arms of a dispatch in a canonical order (which arm the source lists first is irrelevant)"""
+    out = []
+    for s in g:
+        if s[0] == "lenp":
+            out.append(["lenp", s[1], gnorm(s[2])])
+        elif s[0] == "repeat":
+            out.append(["repeat", s[1], gnorm(s[2])])
+        elif s[0] == "switch":
+            out.append(["switch", s[1], sorted([[lab, gnorm(g2)] for lab, g2 in s[2]], key=lambda x: x[0]), gnorm(s[3]) if s[3] else s[3]])
+        else:
+            out.append(s)
+    return out
+
+
 def walk_g(g, fn, path=""):
     for i, s in enumerate(g):
         fn(g, i, s, path)
@@ -82,7 +97,7 @@ def run(tier, repo):
         g = ge.fn_gterm(path)
         G[path] = g
         rp.functions.update(ge.called | {path})
-        d = gdiff(want, g)
+        d = gdiff(gnorm(want), gnorm(g))
         opq = "opaque" in json.dumps(g)
         rp.check(d is None and not opq, "WRITER", name, site(f), "emitted layout differs from the reference writer at %s" % (d or "an unreadable construct"), expected="spec/serialize.py", found=d or gterm_str(g)[:300],
                  why_ok="layout equals the reference writer")
